@@ -1194,6 +1194,19 @@ func (a *Act) loopHead(b *ssa.BasicBlock, ins []edgeIn, backs []*ssa.BasicBlock,
 	for _, lv := range lc.lexers {
 		g.oblige("inv-init", lname+":auto:lexOK("+lv.Name()+")", reach, lexInv(stIn, lv), p0, "automatic invariant: the lexer stays well-formed")
 	}
+	// ghost snapshots taken on entry to the loop
+	if lc.spec != nil {
+		for _, l := range lc.spec.Lets {
+			func() {
+				defer wrapClauseErr(l)
+				e := a.newEnv(stIn, entryEnv, nil)
+				if a.lets == nil {
+					a.lets = map[string]tv{}
+				}
+				a.lets[l.Label] = e.value(e.eval(l.Expr))
+			}()
+		}
+	}
 	// init obligations
 	for _, ai := range lc.auto {
 		g.oblige("inv-init", lname+":auto:"+ai.text, reach, fmt.Sprintf("(%s %s %s)", ai.rel, entryEnv[ai.phi], ai.c), p0, ai.text)
